@@ -20,16 +20,16 @@
 //! bound, recurse without bound or loop; such an event kills the child, is recorded as outcome
 //! class `Abort` for exactly that image and never takes the engine down.
 
-use crate::backend::MemBackend;
-use crate::decode::{self, PageNo, Slot};
-use crate::dump;
-use crate::interp::{Cfg, Interp};
-use crate::model::{DbModel, Dump, Tables};
-use crate::ops::*;
-use crate::par;
-use crate::profiles::{fill_ops, key_of, txn, val_of};
-use crate::report::{panic_key, Report};
-use crate::types::*;
+use vh::backend::MemBackend;
+use vh::decode::{self, PageNo, Slot};
+use vh::dump;
+use vh::interp::{Cfg, Interp};
+use vh::model::{DbModel, Dump, Tables};
+use vh::ops::*;
+use vh::par;
+use vh::profiles::{fill_ops, key_of, txn, val_of};
+use vh::report::{panic_key, Report};
+use vh::types::*;
 use serde_json::{json, Value};
 use std::collections::{BTreeMap, BTreeSet};
 use std::io::{BufRead, BufReader, Write};
@@ -39,8 +39,12 @@ const HEADER_BYTES: u64 = 320;
 const RUN_LENGTHS: [u32; 6] = [2, 4, 8, 16, 64, 512];
 /// images per child process
 const CHUNK: usize = 4000;
-/// seconds one altered image may take before the child is killed (outcome class Abort/SIGALRM)
+/// seconds one altered image may take before the child is killed; the image is then executed
+/// once more, alone in a fresh child, with RETRY_ALARM_S (first touch of a few hundred MB that a
+/// damaged page number makes redb zero-fill can take that long on a loaded virtual machine);
+/// only a second timeout is the outcome class Abort
 const PER_IMAGE_ALARM_S: u32 = 30;
+const RETRY_ALARM_S: u32 = 300;
 /// address-space limit of a child: an allocation request beyond it aborts the child
 const CHILD_AS_LIMIT: u64 = 2 << 30;
 
@@ -169,6 +173,10 @@ pub fn base_specs(tier: &str) -> Vec<BaseSpec> {
     let mut v = vec![];
     for cfg in &cfgs {
         for h in &hs {
+            if *h == 3 && *cfg == CFG_B {
+                // the three-level history runs on the first configuration only (time budget)
+                continue;
+            }
             for kind in [ImageKind::Closed, ImageKind::CrashStopped] {
                 v.push(BaseSpec { history: *h, cfg: *cfg, kind });
             }
@@ -605,7 +613,7 @@ fn exec_image(
         let counted = close && matches!(out.class, Class::Clean | Class::Repaired);
         if !counted {
             // verdict already formed: make the teardown cheap and ignore what it does
-            backend.lock().fault_at = Some((0, crate::backend::FaultMode::Permanent));
+            backend.lock().fault_at = Some((0, vh::backend::FaultMode::Permanent));
         } else {
             calls.set(calls.get() + 1);
         }
@@ -844,9 +852,9 @@ fn clean(s: &str) -> String {
 }
 
 fn child_main(spec: &str) -> i32 {
-    // spec: tier;base;from;to;expected_total
+    // spec: tier;base;from;to;expected_total;alarm_seconds
     let f: Vec<&str> = spec.split(';').collect();
-    if f.len() != 5 {
+    if f.len() != 6 {
         eprintln!("corruptx child: bad spec {spec}");
         return 3;
     }
@@ -855,6 +863,7 @@ fn child_main(spec: &str) -> i32 {
     let from: usize = f[2].parse().unwrap_or(0);
     let to: usize = f[3].parse().unwrap_or(0);
     let total: usize = f[4].parse().unwrap_or(0);
+    let alarm_s: u32 = f[5].parse().unwrap_or(PER_IMAGE_ALARM_S);
     par::install_panic_hook();
     unsafe {
         let lim = libc::rlimit { rlim_cur: CHILD_AS_LIMIT, rlim_max: CHILD_AS_LIMIT };
@@ -887,7 +896,7 @@ fn child_main(spec: &str) -> i32 {
     let mut w = std::io::BufWriter::with_capacity(1 << 12, stdout.lock());
     for idx in from..to {
         unsafe {
-            libc::alarm(PER_IMAGE_ALARM_S);
+            libc::alarm(alarm_s);
         }
         let bytes = base.space.alts[idx].apply(&base.image);
         let (o, _) = exec_image(base.spec.cfg, bytes, &base.cps, &base.hints, false, with_close(tier));
@@ -936,10 +945,13 @@ fn run_chunk(tier: &str, bi: usize, from: usize, to: usize, total: usize) -> Res
     let mut out: Vec<(usize, Outcome)> = Vec::with_capacity(to - from);
     let mut next = from;
     let mut respawns = 0;
+    // Some(index) while the image that timed out is executed alone with the long limit
+    let mut retry: Option<usize> = None;
     while next < to {
+        let (upto, alarm_s) = if retry == Some(next) { (next + 1, RETRY_ALARM_S) } else { (to, PER_IMAGE_ALARM_S) };
         let mut child = std::process::Command::new(&exe)
             .args(&args)
-            .env(CHILD_ENV, format!("{tier};{bi};{next};{to};{total}"))
+            .env(CHILD_ENV, format!("{tier};{bi};{next};{upto};{total};{alarm_s}"))
             .stdin(std::process::Stdio::null())
             .stdout(std::process::Stdio::piped())
             .stderr(std::process::Stdio::piped())
@@ -951,6 +963,10 @@ fn run_chunk(tier: &str, bi: usize, from: usize, to: usize, total: usize) -> Res
             let line = line.map_err(|e| format!("read child: {e}"))?;
             if line == "E" {
                 ended = true;
+                continue;
+            }
+            if !line.starts_with("R\t") {
+                // anything the hosting binary prints before dispatching to this engine
                 continue;
             }
             match parse_line(&line) {
@@ -968,21 +984,25 @@ fn run_chunk(tier: &str, bi: usize, from: usize, to: usize, total: usize) -> Res
         }
         let status = child.wait().map_err(|e| format!("wait child: {e}"))?;
         if ended && status.success() {
-            if next != to {
-                return Err(format!("child ended early at {next} of {to}"));
+            if next != upto {
+                return Err(format!("child ended early at {next} of {upto}"));
             }
-            break;
+            continue;
         }
         if status.code() == Some(3) {
             return Err(format!("child machinery failure: {}", err.trim()));
         }
-        if next >= to {
+        if next >= upto {
             return Err(format!("child failed after its last result: {status} {}", err.trim()));
         }
         // the child died while executing image `next`
         use std::os::unix::process::ExitStatusExt;
+        if status.signal() == Some(libc::SIGALRM) && retry != Some(next) {
+            retry = Some(next);
+            continue;
+        }
         let how = match status.signal() {
-            Some(libc::SIGALRM) => format!("no result within {PER_IMAGE_ALARM_S} s (killed by SIGALRM)"),
+            Some(libc::SIGALRM) => format!("no result within {RETRY_ALARM_S} s of a dedicated process (killed by SIGALRM)"),
             Some(s) => format!("killed by signal {s}"),
             None => format!("exit status {:?}", status.code()),
         };
@@ -1278,7 +1298,7 @@ pub fn run(tier: &str) -> i32 {
     }
     rep.cov(
         "bounds",
-        json!({"histories": specs.iter().map(|s| s.history).collect::<BTreeSet<_>>(), "configs": specs.iter().map(|s| format!("{:?}", s.cfg)).collect::<BTreeSet<_>>(), "run_lengths": RUN_LENGTHS, "images_per_child_process": CHUNK, "child_address_space_limit": CHILD_AS_LIMIT, "per_image_timeout_s": PER_IMAGE_ALARM_S}),
+        json!({"histories": specs.iter().map(|s| s.history).collect::<BTreeSet<_>>(), "configs": specs.iter().map(|s| format!("{:?}", s.cfg)).collect::<BTreeSet<_>>(), "run_lengths": RUN_LENGTHS, "images_per_child_process": CHUNK, "child_address_space_limit": CHILD_AS_LIMIT, "per_image_timeout_s": [PER_IMAGE_ALARM_S, RETRY_ALARM_S]}),
     );
     rep.assumptions.push("redb is deterministic and depends on the file only through its length and the bytes the backend serves (basis of the read-set reduction)".into());
     rep.assumptions.push("the storage contract monitor is not part of the verdict for altered images (reads beyond EOF of a truncated file are expected and answered with an error)".into());
